@@ -515,4 +515,10 @@ MUTANTS += [
     {
       this->flush_log();
     }"""},
+    {"id": "c05-revert-f21", "props": ["C05", "C02"], "file": "quill/core/UnboundedSPSCQueue.h",
+     "desc": "prepare_read follows only one link of a chain of re-allocated buffers again (finding F21 comes back)",
+     "old": """      while (read_result.allocation && !read_result.read_pos &&
+             (next_node = _consumer->next.load(std::memory_order_acquire)))""",
+     "new": """      while (false && read_result.allocation && !read_result.read_pos &&
+             (next_node = _consumer->next.load(std::memory_order_acquire)))"""},
 ]
